@@ -33,6 +33,7 @@ MIN_NONTRIVIAL = {'quick': 20000, 'thorough': 200000}
 REQUIRED_MONITORS = ['contract:trs_to_dict', 'construct', 'construct:ocr_scrub',
                      'construct:placeholder', 'wrap:dict-edited-by-caller',
                      'construct:upper-default', 'construct:static+setter',
+                     'construct:setter-on-used-object',
                      'wrap',
                      'wrap-nonstandard', 'eq-hash', 'tract-trs',
                      'eq-hash:reused-object']
@@ -147,7 +148,16 @@ def _check_construct(ctx, rep, pytrs, t, ns, r, ew, s, tenc, renc, senc,
             # builder and the setter's return value.
             ctx.hit('construct:static+setter')
             direct = pytrs.TRS.construct_trs(tv, rv, sv, **kw)
-            setter_obj = pytrs.TRS()
+            # the setter on a fresh object, or on one that holds another
+            # Twp/Rge/Sec with the opposite directions: what the object
+            # held before does not stand in for a missing direction
+            if (t + r + s) % 2:
+                setter_obj = pytrs.TRS()
+            else:
+                ctx.hit('construct:setter-on-used-object')
+                setter_obj = pytrs.TRS(
+                    f"27{'s' if ns == 'n' else 'n'}"
+                    f"14{'e' if ew == 'w' else 'w'}05")
             returned = setter_obj.set_twprgesec(tv, rv, sv, **kw)
             for label, val in (('TRS.construct_trs', direct),
                                ('set_twprgesec (returned)', returned),
